@@ -34,7 +34,7 @@ def rebuild(model, hist, expect=None):
     return w
 
 
-def explore(model, first_ops, D0, D1, dev_bound):
+def explore(model, first_ops, D0, D1, dev_bound, second_ops=None):
     """Explore all histories that start with one of `first_ops`.
 
     Returns dict(transitions, states(set of canon), violations, outcomes, max_depth,
@@ -48,7 +48,14 @@ def explore(model, first_ops, D0, D1, dev_bound):
 
     def step(hist, op, obs_prefix):
         """Execute hist+op on a fresh world; returns (world, obs) after checking."""
-        w = rebuild(model, hist, obs_prefix)
+        try:
+            w = rebuild(model, hist, obs_prefix)
+        except Divergence as dv:
+            # Identically built fresh worlds replaying the same prefix gave different observations: the code
+            # under test keeps state outside the objects the world owns.  Reported, then explored without the
+            # prefix check so that the run completes.
+            res["violations"].append((hist, ("fresh-world-replay-diverged", {"divergence": str(dv)[:400]})))
+            w = rebuild(model, hist, None)
         obs = model.apply(w, op)
         res["transitions"] += 1
         res["outcomes"][model.outcome_class(op, obs)] += 1
@@ -64,11 +71,13 @@ def explore(model, first_ops, D0, D1, dev_bound):
     frontier = []           # (hist, observations) at depth D0 for the merged regime
 
     def dfs(hist, obs_list):
-        w0 = rebuild(model, hist, obs_list)
+        w0 = rebuild(model, hist, None)
         ops = model.ops(w0)
         del w0
         for op in ops:
             if not hist and op not in first_ops:
+                continue
+            if len(hist) == 1 and second_ops is not None and op not in second_ops:
                 continue
             if devs(hist + (op,)) > dev_bound:
                 continue
@@ -98,7 +107,7 @@ def explore(model, first_ops, D0, D1, dev_bound):
     while level and depth < D1:
         nxt = []
         for hist, obs_list in level:
-            w0 = rebuild(model, hist, obs_list)
+            w0 = rebuild(model, hist, None)
             ops = model.ops(w0)
             del w0
             for op in ops:
